@@ -76,6 +76,22 @@ fn positions_for(text: &str, t: &mut Tape, n: usize) -> Vec<(u32, u32)> {
                     (li as u32, cands[t.below(cands.len())])
                 }
             }
+            9 | 10 => {
+                // on an identifier (definition / references / hover)
+                let mut col = 0u32;
+                let mut cands = vec![];
+                for ch in l.chars() {
+                    if ch.is_alphabetic() || ch == '_' {
+                        cands.push(col);
+                    }
+                    col += ch.len_utf16() as u32;
+                }
+                if cands.is_empty() {
+                    (li as u32, 0)
+                } else {
+                    (li as u32, cands[t.below(cands.len())])
+                }
+            }
             _ => (li as u32, t.below(l.len() + 2) as u32), // anywhere up to the byte length + 1
         };
         out.push(p);
@@ -95,13 +111,39 @@ fn strat() -> impl Strategy<Value = Case> {
             _ => ("generated".to_string(), vplsrc::program(&mut t)),
         };
         let mut mt = Tape::new(&mtape);
-        let (mut text, labels) = vplsrc::mutate(&base, nm, &mut mt, corpus);
+        let benign = pick(sel.wrapping_mul(31), 10) < 4;
+        let (mut text, labels) = if benign { (base.clone(), vec![]) } else { vplsrc::mutate(&base, nm, &mut mt, corpus) };
         for l in labels {
             origin.push('+');
             origin.push_str(l);
         }
+        if benign {
+            // keep the document parsable: multi-byte text only in trailing comments and in
+            // complete declarations appended at the end
+            let mut lines: Vec<String> = text.split('\n').map(|l| l.to_string()).collect();
+            for _ in 0..(1 + mt.below(3)) {
+                let i = mt.below(lines.len());
+                if !lines[i].contains('"') && !lines[i].contains("/*") && !lines[i].contains("*/") {
+                    lines[i].push_str(mt.of(&["  # é", " # 😀😀 日本", "\t# naïve 𝒳", " # ß"]));
+                }
+            }
+            text = lines.join("\n");
+            if !text.ends_with('\n') {
+                text.push('\n');
+            }
+            for _ in 0..mt.below(3) {
+                text.push_str(mt.of(&[
+                    "stream Zz1 = Trade.where(name == \"é😀\")\n",
+                    "const LABEL = \"日本語 😀\"\n",
+                    "event Extra:\n    note: str  # 😀\n",
+                    "stream Zz2 = Extra\n    .where(note == \"ü\")   # é\n    .emit(n: note)\n",
+                    "fn helper_zz(a: int) -> int:\n    return a + 1  # 😀\n",
+                ]));
+            }
+            origin.push_str("+benign_non_ascii");
+        }
         // LSP-specific lines (completion contexts, non-ASCII identifiers)
-        let extra = mt.below(4);
+        let extra = if benign { 0 } else { mt.below(4) };
         for _ in 0..extra {
             let mut lines: Vec<&str> = text.split('\n').collect();
             let at = mt.below(lines.len() + 1);
